@@ -174,26 +174,37 @@ Definition non_zero_or_s (s d : string) : string := if is_empty s then d else s.
 Definition all_authn_methods (l : lists) : list string :=
   (l_token_methods l ++ l_intro_methods l ++ l_revoc_methods l)%list.
 
+(* the steps of setDefaults that touch a list, in the order of provider.go *)
+Definition sd_idt_sig (l : lists) : lists :=
+  l <| l_idt_default_sig := non_zero_or_s (l_idt_default_sig l) "RS256" |>
+    <| l_idt_sig_algs := non_zero_or (l_idt_sig_algs l) ["RS256"] |>.
+(* authnMethods = TokenAuthnMethods ++ TokenIntrospectionAuthnMethods ++ TokenRevocationAuthnMethods *)
+Definition sd_pkjwt (authn : list string) (l : lists) : lists :=
+  if mem "private_key_jwt" authn then l <| l_pkjwt_algs := non_zero_or (l_pkjwt_algs l) ["RS256"] |> else l.
+Definition sd_secretjwt (authn : list string) (l : lists) : lists :=
+  if mem "client_secret_jwt" authn then l <| l_secretjwt_algs := non_zero_or (l_secretjwt_algs l) ["HS256"] |> else l.
+Definition sd_jar_enc (l : lists) : lists :=
+  if l_jar_enc l then l <| l_jar_content_algs := non_zero_or (l_jar_content_algs l) ["A128CBC-HS256"] |> else l.
+Definition sd_jarm_enc (l : lists) : lists :=
+  if l_jarm_enc l
+  then l <| l_jarm_default_cenc := non_zero_or_s (l_jarm_default_cenc l) "A128CBC-HS256" |>
+         <| l_jarm_content_algs := non_zero_or (l_jarm_content_algs l) ["A128CBC-HS256"] |>
+  else l.
+Definition sd_idt_enc (l : lists) : lists :=
+  if l_idt_enc l
+  then l <| l_idt_default_cenc := non_zero_or_s (l_idt_default_cenc l) "A128CBC-HS256" |>
+         <| l_idt_content_algs := non_zero_or (l_idt_content_algs l) ["A128CBC-HS256"] |>
+  else l.
+Definition sd_ui_enc (l : lists) : lists :=
+  if l_ui_enc l
+  then l <| l_ui_default_cenc := non_zero_or_s (l_ui_default_cenc l) "A128CBC-HS256" |>
+         <| l_ui_content_algs := non_zero_or (l_ui_content_algs l) ["A128CBC-HS256"] |>
+  else l.
+
 Definition set_defaults_lists (l : lists) : lists :=
-  let l := l <| l_idt_default_sig := non_zero_or_s (l_idt_default_sig l) "RS256" |>
-             <| l_idt_sig_algs := non_zero_or (l_idt_sig_algs l) ["RS256"] |> in
-  let authn := all_authn_methods l in
-  let l := if mem "private_key_jwt" authn then l <| l_pkjwt_algs := non_zero_or (l_pkjwt_algs l) ["RS256"] |> else l in
-  let l := if mem "client_secret_jwt" authn then l <| l_secretjwt_algs := non_zero_or (l_secretjwt_algs l) ["HS256"] |> else l in
-  let l := if l_jar_enc l then l <| l_jar_content_algs := non_zero_or (l_jar_content_algs l) ["A128CBC-HS256"] |> else l in
-  let l := if l_jarm_enc l
-           then l <| l_jarm_default_cenc := non_zero_or_s (l_jarm_default_cenc l) "A128CBC-HS256" |>
-                  <| l_jarm_content_algs := non_zero_or (l_jarm_content_algs l) ["A128CBC-HS256"] |>
-           else l in
-  let l := if l_idt_enc l
-           then l <| l_idt_default_cenc := non_zero_or_s (l_idt_default_cenc l) "A128CBC-HS256" |>
-                  <| l_idt_content_algs := non_zero_or (l_idt_content_algs l) ["A128CBC-HS256"] |>
-           else l in
-  let l := if l_ui_enc l
-           then l <| l_ui_default_cenc := non_zero_or_s (l_ui_default_cenc l) "A128CBC-HS256" |>
-                  <| l_ui_content_algs := non_zero_or (l_ui_content_algs l) ["A128CBC-HS256"] |>
-           else l in
-  l.
+  let l1 := sd_idt_sig l in
+  let authn := all_authn_methods l1 in
+  sd_ui_enc (sd_idt_enc (sd_jarm_enc (sd_jar_enc (sd_secretjwt authn (sd_pkjwt authn l1))))).
 
 Definition folded_lists (opts : list opt2) : lists :=
   fold_left (fun l o => apply_lists o l) opts base_lists.
